@@ -26,6 +26,7 @@ class Ty:
     module: str = "model"
     enum: bool = False
     iterable: bool = False
+    bases: Tuple[Any, ...] = ()  # proper base classes that matter to a test (an IntEnum is an int, a Label(str) is a str)
 
     def __repr__(self):
         return self.name
@@ -84,6 +85,12 @@ MYENUM = Ty("Color", "user", enum=True)
 MAPPED = Ty("Mapped", "user")
 CUSTOM = Ty("Custom", "user")
 OTHER = Ty("Unmapped", "user")
+# enums that mix a value type in (IntEnum, StrEnum, class Colour(str, Enum)) and user classes deriving from a value type: they *are*
+# ints / strs for issubclass, and still an enum / a class of the model for the class diagram
+INTENUM = Ty("Priority", "user", enum=True, bases=(INT,))
+STRENUM = Ty("Colour", "user", enum=True, iterable=True, bases=(STR,))
+STRSUB = Ty("Label", "user", iterable=True, bases=(STR,))
+STAMP = Ty("Stamp", "user", bases=(DATETIME,))
 
 
 def opt(x):
@@ -147,7 +154,7 @@ def f_issubclass(a, b):
         return a.enum
     if isinstance(b, tuple):
         return any(f_issubclass(a, x) for x in b)
-    return a is b or (b is SET and a is SET)
+    return a is b or (b is SET and a is SET) or any(f_issubclass(x, b) for x in a.bases)
 
 
 def f_hasattr(o, name):
@@ -189,6 +196,12 @@ CLASSIFY_ONLY: Dict[str, List[Any]] = {
     "variadic-tuple-of-builtins": [Gen(TUPLE, (INT, ELLIPSIS)), Gen(TUPLE, (STR, ELLIPSIS))],
     "collection-of-enum": [Gen(LIST, (MYENUM,)), Gen(SET, (MYENUM,)), Gen(SEQUENCE, (MYENUM,))],
     "type-of-enum": [Gen(TYPE, (MYENUM,))],
+    "mixin-enum": [INTENUM, STRENUM],
+    "optional-mixin-enum": opt_forms(INTENUM) + [opt(STRENUM)],
+    "collection-of-mixin-enum": [Gen(LIST, (INTENUM,)), Gen(SET, (STRENUM,))],
+    "subclass-of-a-value-type": [STRSUB, STAMP],
+    "optional-subclass-of-a-value-type": opt_forms(STRSUB),
+    "collection-of-subclass-of-a-value-type": [Gen(LIST, (STRSUB,)), Gen(LIST, (STAMP,))],
 }
 
 PREDICATES = ["is_optional", "is_container", "is_builtin_type", "is_enum", "is_type_type", "is_one_to_one_relationship",
@@ -216,6 +229,15 @@ EXPECTED: Dict[str, Dict[str, Any]] = {
     "variadic-tuple-of-builtins": dict(is_optional=F, is_container=T, is_builtin_type=T, is_enum=F, is_type_type=F, is_one_to_one_relationship=F, is_one_to_many_relationship=F, is_collection_of_builtins=T, endpoint="inner", is_iterable=F),
     "type-of-enum": dict(is_optional=F, is_container=T, is_builtin_type=F, is_enum=F, is_type_type=T, is_one_to_one_relationship=F, is_one_to_many_relationship=T, is_collection_of_builtins=F, endpoint="inner", is_iterable=F),
 }
+
+
+# a mixin enum is an enum, a user class deriving from a value type is a class of the model - whatever value type is mixed in
+EXPECTED["mixin-enum"] = EXPECTED["enum"]
+EXPECTED["optional-mixin-enum"] = EXPECTED["optional-enum"]
+EXPECTED["collection-of-mixin-enum"] = EXPECTED["collection-of-enum"]
+EXPECTED["subclass-of-a-value-type"] = EXPECTED["custom"]
+EXPECTED["optional-subclass-of-a-value-type"] = EXPECTED["optional-custom"]
+EXPECTED["collection-of-subclass-of-a-value-type"] = EXPECTED["list-of-custom"]
 
 
 def inner_of(ann):
